@@ -5,6 +5,8 @@ package standard
 import (
 	"context"
 	"errors"
+	"github.com/attestantio/go-block-relay/types"
+	"time"
 
 	builderapi "github.com/attestantio/go-builder-client/api"
 	apiv1 "github.com/attestantio/go-builder-client/api/v1"
@@ -27,13 +29,17 @@ type c11Setting struct {
 }
 
 type c11Config struct {
-	unresolvable map[uint64]bool              // account tag -> settings cannot be resolved
-	relays       map[uint64][]string          // account tag -> relay addresses (ordered)
+	unresolvable map[uint64]bool     // account tag -> settings cannot be resolved
+	relays       map[uint64][]string // account tag -> relay addresses (ordered)
 	settings     map[uint64]map[string]c11Setting
 }
 
-func (c *c11Config) ProposerConfig(_ context.Context, account e2wtypes.Account, _ phase0.BLSPubKey, _ bellatrix.ExecutionAddress, _ uint64) (*beaconblockproposer.ProposerConfig, error) {
-	tag := account.(*vstub.Account).Tag
+func (c *c11Config) ProposerConfig(_ context.Context, account e2wtypes.Account, pubkey phase0.BLSPubKey, _ bellatrix.ExecutionAddress, _ uint64) (*beaconblockproposer.ProposerConfig, error) {
+	// lookups for validators not controlled by Vouch come without an account (harness keys: 0x40 + tag - 1)
+	tag := uint64(pubkey[0]-0x40) + 1
+	if account != nil {
+		tag = account.(*vstub.Account).Tag
+	}
 	if c.unresolvable[tag] {
 		return nil, errors.New("mock: settings cannot be resolved")
 	}
@@ -92,6 +98,9 @@ type c11Node struct {
 	name  string
 	fail  bool
 	calls [][]*consensusapi.VersionedSignedValidatorRegistration
+	// echo: this beacon node has Vouch as its builder endpoint, so the
+	// registrations it is given come straight back through the builder API
+	echo *Service
 }
 
 func (n *c11Node) Name() string    { return n.name }
@@ -100,6 +109,14 @@ func (n *c11Node) IsActive() bool  { return true }
 func (n *c11Node) IsSynced() bool  { return true }
 func (n *c11Node) SubmitValidatorRegistrations(_ context.Context, regs []*consensusapi.VersionedSignedValidatorRegistration) error {
 	n.calls = append(n.calls, regs)
+	if n.echo != nil {
+		back := make([]*types.SignedValidatorRegistration, 0, len(regs))
+		for _, r := range regs {
+			back = append(back, &types.SignedValidatorRegistration{Signature: r.V1.Signature, Message: &types.ValidatorRegistration{
+				FeeRecipient: r.V1.Message.FeeRecipient, GasLimit: r.V1.Message.GasLimit, Timestamp: r.V1.Message.Timestamp, Pubkey: r.V1.Message.Pubkey}})
+		}
+		_, _ = n.echo.ValidatorRegistrations(context.Background(), back)
+	}
 	if n.fail {
 		return errors.New("mock node failure")
 	}
@@ -141,6 +158,9 @@ func VerifC11_Registrations() {
 		latestValidatorRegistrations: map[phase0.BLSPubKey]phase0.Root{}, signedValidatorRegistrations: map[phase0.Root]*apiv1.SignedValidatorRegistration{},
 		secondaryValidatorRegistrationsSubmitters: nil}
 	s.secondaryValidatorRegistrationsSubmitters = append(s.secondaryValidatorRegistrationsSubmitters, nodes[0], nodes[1])
+	if vnd.Bool("node-b.has-vouch-as-its-builder") {
+		nodes[1].echo = s
+	}
 	_ = s.submitValidatorRegistrationsForAccounts(context.Background(), accounts)
 	vnd.Quiesce()
 
@@ -227,4 +247,66 @@ func VerifC11_Reuse() {
 		vnd.Assert(signer.calls <= 2, "C11.reuse.unchanged-content-reuses-the-signature")
 	}
 	_ = builderspec.BuilderVersionV1
+}
+
+// VerifC11_Forwarding: registrations arriving on the builder API: those of
+// validators Vouch controls are dropped, those of other validators are
+// forwarded unchanged (fee recipient, gas limit, timestamp, key, signature) to
+// every relay of that validator's settings, whatever the other entries are.
+func VerifC11_Forwarding() {
+	util.VerifResetBuilderClients()
+	relays := []*c11Relay{{name: c11RelayNames[0]}, {name: c11RelayNames[1], fail: vnd.Bool("relay-b.fail")}}
+	for _, r := range relays {
+		util.VerifSetBuilderClient(r.name, r)
+	}
+	cfg := &c11Config{unresolvable: map[uint64]bool{}, relays: map[uint64][]string{}, settings: map[uint64]map[string]c11Setting{}}
+	s := &Service{chainTime: vstub.NewChainTime(0), fallbackFeeRecipient: c12Fallback, fallbackGasLimit: 30000000, executionConfig: cfg,
+		controlledValidators: map[phase0.BLSPubKey]struct{}{}}
+	n := vnd.IntRange("registrations", 1, 2)
+	var in []*types.SignedValidatorRegistration
+	controlled := make([]bool, n)
+	nrel := make([]int, n)
+	for i := 0; i < n; i++ {
+		tag := uint64(i + 1)
+		var key phase0.BLSPubKey
+		key[0] = byte(0x40 + i)
+		controlled[i] = vnd.Bool("controlled-by-vouch")
+		if controlled[i] {
+			s.controlledValidators[key] = struct{}{}
+		}
+		cfg.unresolvable[tag] = vnd.Bool("unresolvable")
+		nrel[i] = vnd.IntRange("relays", 0, 2)
+		cfg.settings[tag] = map[string]c11Setting{}
+		for k := 0; k < nrel[i]; k++ {
+			cfg.relays[tag] = append(cfg.relays[tag], c11RelayNames[k])
+		}
+		in = append(in, &types.SignedValidatorRegistration{Signature: phase0.BLSSignature(vnd.Sig("their-signature")), Message: &types.ValidatorRegistration{
+			FeeRecipient: bellatrix.ExecutionAddress(vnd.Addr("their-fee-recipient")), GasLimit: vnd.U64("their-gas-limit"), Timestamp: time.Unix(int64(vnd.SmallU64("their-timestamp", 32)), 0), Pubkey: key}})
+	}
+	_, err := s.ValidatorRegistrations(context.Background(), in)
+	vnd.Assert(err == nil, "C11.forward.no-error")
+	vnd.Quiesce()
+	for i := 0; i < n; i++ {
+		for k := 0; k < 2; k++ {
+			got := 0
+			for _, batch := range relays[k].calls {
+				for _, reg := range batch {
+					if reg.V1.Message.Pubkey == in[i].Message.Pubkey {
+						got++
+						m := reg.V1.Message
+						vnd.Assert(m.FeeRecipient == in[i].Message.FeeRecipient && m.GasLimit == in[i].Message.GasLimit && m.Timestamp.Equal(in[i].Message.Timestamp) && reg.V1.Signature == in[i].Signature, "C11.forward.forwarded-unchanged")
+					}
+				}
+			}
+			want := 0
+			if !controlled[i] && !cfg.unresolvable[uint64(i+1)] && k < nrel[i] {
+				want = 1
+				vnd.Cover("C11.forward.forwarded")
+			}
+			if controlled[i] {
+				vnd.Cover("C11.forward.controlled-dropped")
+			}
+			vnd.Assert(got == want, "C11.forward.to-every-relay-of-an-uncontrolled-validator-and-to-none-for-a-controlled-one")
+		}
+	}
 }
